@@ -177,3 +177,84 @@ Example seek_bytes_examples :
   seek_bytes Inflate.inflate Frame.eof_block (mkBlk 0 0 0 0) (pack 11 0) = (Ok (pack 11 0), Ok (pack 11 0)) /\
   seek_bytes Inflate.inflate Frame.eof_block (mkBlk 0 0 0 0) (pack 4000 9) = (Ok (pack 4000 9), Ok (pack 4000 0)).
 Proof. vm_compute. repeat split; reflexivity. Qed.
+
+(* ---- after an Err (repair da5f8c7): the failed block is not the current block -------------- *)
+
+Lemma rnb_err_block : forall inflate fuel src pos b pos' b' e,
+  rnb inflate fuel src pos b = (pos', b', Err e) ->
+  (b' = b /\ pos' = pos) \/
+  (b' = mkBlk (k_pos b) (k_size b) (k_len b) (k_len b) /\ pos' = pos) \/
+  (exists p s, b' = mkBlk p s 0 0 /\ pos' = p + s).
+Proof.
+  intros inflate. induction fuel as [|fuel IH]; intros src pos b pos' b' e H; cbn [rnb] in H; [discriminate|].
+  destruct (Reader.read_frame src) as [[[fr rest]|]|e0|]; try discriminate.
+  - destruct (Frame.parse_frame fr) as [[[[bs cdata] crc] isize]|e0|]; try discriminate.
+    + destruct (inflate cdata isize) as [d|].
+      * destruct (Crc32.crc32 d =? crc).
+        -- destruct (0 <? isize) eqn:Hz; [discriminate|].
+           assert (isize = 0) by lia. subst isize.
+           destruct (IH _ _ _ _ _ _ H) as [[Hb Hp]|[[Hb Hp]|(p & s & Hb & Hp)]].
+           ++ right. right. exists pos, bs. split; [exact Hb|exact Hp].
+           ++ right. right. exists pos, bs. cbn [k_pos k_size k_len] in Hb. split; [exact Hb|exact Hp].
+           ++ right. right. exists p, s. split; assumption.
+        -- injection H as Hp Hb _. right. left. split; congruence.
+      * injection H as Hp Hb _. right. left. split; congruence.
+    + injection H as Hp Hb _. left. split; congruence.
+  - injection H as Hp Hb _. left. split; congruence.
+Qed.
+
+(* (1) if anything is readable after the Err, it is the untouched previous block: no byte of the
+       failed block (nor of any other) can be delivered;
+   (2) when the block was exhausted before (always the case when read / fill_buf reads a block) the
+       position told is unchanged, or has only advanced over well-formed empty frames *)
+Theorem failed_block_not_current : forall inflate fuel src pos b pos' b' e,
+  rnb inflate fuel src pos b = (pos', b', Err e) ->
+  (k_cur b' < k_len b' -> b' = b) /\
+  (k_len b <= k_cur b ->
+   blk_vpos b' = blk_vpos b \/ exists p s, b' = mkBlk p s 0 0 /\ pos' = p + s).
+Proof.
+  intros inflate fuel src pos b pos' b' e H.
+  destruct (rnb_err_block _ _ _ _ _ _ _ _ H) as [[Hb Hp]|[[Hb Hp]|(p & s & Hb & Hp)]].
+  - split; [intros _; exact Hb|intros _; left; rewrite Hb; reflexivity].
+  - split.
+    + intros Hlt. rewrite Hb in Hlt. cbn [k_cur k_len] in Hlt. lia.
+    + intros Hex. left. rewrite Hb. unfold blk_vpos. cbn [k_cur k_len k_pos k_size].
+      destruct (k_len b <? k_len b) eqn:E1; [lia|].
+      destruct (k_cur b <? k_len b) eqn:E2; [lia|]. reflexivity.
+  - split.
+    + intros Hlt. rewrite Hb in Hlt. cbn [k_cur k_len] in Hlt. lia.
+    + intros _. right. exists p, s. split; assumption.
+Qed.
+
+Lemma rnbs_rnb : forall inflate fuel src pos b,
+  let '(_, p, b', r) := rnbs inflate fuel src pos b in rnb inflate fuel src pos b = (p, b', r).
+Proof.
+  intros inflate. induction fuel as [|fuel IH]; intros src pos b; cbn [rnbs rnb]; [reflexivity|].
+  destruct (Reader.read_frame src) as [[[fr rest]|]|e0|]; try reflexivity.
+  - destruct (Frame.parse_frame fr) as [[[[bs cdata] crc] isize]|e0|]; try reflexivity.
+    destruct (inflate cdata isize) as [d|]; [|reflexivity].
+    destruct (Crc32.crc32 d =? crc); [|reflexivity].
+    destruct (0 <? isize); [reflexivity|]. apply IH.
+  - destruct e0; reflexivity.
+Qed.
+
+(* the same for Read::read: a call that fails leaves nothing readable, and the position told is
+   the one told before the call or has advanced over well-formed empty frames only *)
+Theorem read_b_err : forall inflate s n s' e,
+  read_b inflate s n = (s', Err e) ->
+  k_len (s_blk s') <= k_cur (s_blk s') /\
+  (blk_vpos (s_blk s') = blk_vpos (s_blk s) \/
+   exists p sz, s_blk s' = mkBlk p sz 0 0 /\ s_position s' = p + sz).
+Proof.
+  intros inflate s n s' e H. unfold read_b in H.
+  destruct (k_cur (s_blk s) <? k_len (s_blk s)) eqn:Hr; [discriminate|].
+  pose proof (rnbs_rnb inflate (S (length (s_src s))) (s_src s) (s_position s) (s_blk s)) as Hp.
+  destruct (rnbs inflate (S (length (s_src s))) (s_src s) (s_position s) (s_blk s)) as [[[src' pos'] b'] r].
+  destruct r as [a|e0| | |]; try discriminate.
+  injection H as Hs He. subst s' e0. cbn [s_blk s_position].
+  destruct (failed_block_not_current _ _ _ _ _ _ _ _ Hp) as [H1 H2].
+  split.
+  - destruct (k_cur b' <? k_len b') eqn:E; [|lia].
+    rewrite (H1 ltac:(lia)) in E. lia.
+  - apply H2. lia.
+Qed.
